@@ -323,19 +323,25 @@ func c01Stateful(r *Run, c c01Config) {
 		if sp == 3 {
 			sp = 1
 		}
-		name := Keys[extra].Spell(sp)
-		do(Act("enableAttester("+attName(name)+") by A1", &cctptypes.MsgEnableAttester{From: AttMgr.Str, Attester: name}))
-		// first under ANOTHER spelling of the same key: on this tree that names a different (absent)
-		// registry entry and is refused; an implementation that accepts it has disabled the key
-		altSp := 1
-		if sp == 1 {
-			altSp = 0
+		sps := []int{sp}
+		if sp != 2 {
+			sps = append(sps, 2) // and once more stored in upper case
 		}
-		alt := Act("disableAttester("+attName(Keys[extra].Spell(altSp))+") by A1", &cctptypes.MsgDisableAttester{From: AttMgr.Str, Attester: Keys[extra].Spell(altSp)})
-		if o := w.Apply(alt); o.OK {
-			pre = append(pre, alt)
-		} else {
-			do(Act("disableAttester("+attName(name)+") by A1", &cctptypes.MsgDisableAttester{From: AttMgr.Str, Attester: name}))
+		for _, sp := range sps {
+			name := Keys[extra].Spell(sp)
+			do(Act("enableAttester("+attName(name)+") by A1", &cctptypes.MsgEnableAttester{From: AttMgr.Str, Attester: name}))
+			// first under ANOTHER spelling of the same key: on this tree that names a different (absent)
+			// registry entry and is refused; an implementation that accepts it has disabled the key
+			altSp := 1
+			if sp == 1 {
+				altSp = 0
+			}
+			alt := Act("disableAttester("+attName(Keys[extra].Spell(altSp))+") by A1", &cctptypes.MsgDisableAttester{From: AttMgr.Str, Attester: Keys[extra].Spell(altSp)})
+			if o := w.Apply(alt); o.OK {
+				pre = append(pre, alt)
+			} else {
+				do(Act("disableAttester("+attName(name)+") by A1", &cctptypes.MsgDisableAttester{From: AttMgr.Str, Attester: name}))
+			}
 		}
 	}
 	if !reachable {
